@@ -209,7 +209,7 @@ def check_config(ci):
             sports = [1, 65535]
             protos = [e['proto']] if e['proto'] else [6, 17]
             for src, dst, sp, dp, pr in itertools.product(corners_src, corners_dst, sports[:1 if ck.quick else 2], dports, protos):
-                pres = ['none', 'established']
+                pres = ['none', 'established', 'established+half-open']
                 if any(x is not c and x['peer'] == c['peer'] for x in expect):
                     pres.append('sibling-established')      # an IKE_SA exists for ANOTHER connection with this peer address
                 for pre in pres:
@@ -294,6 +294,11 @@ def acquire_case(confs, addrs, expect, ci, ei, pol_index, src, dst, sport, dport
     sel = K.enc_selector(src, dst, sport, dport, proto, src.max_prefixlen, dst.max_prefixlen)
     raw = K.enc_acquire(c['my'], c['peer'], sel, pol_index, proto=e['ipsec'], mode=e['mode'])
     probs = []
+    if pre == 'established+half-open':
+        pre = 'established'
+        half_open = True
+    else:
+        half_open = False
     if pre == 'established':
         # an IKE_SA with that peer exists already (created through the first entry of the connection)
         conns = [i for i, x in enumerate(expect) if x is c]
@@ -302,6 +307,15 @@ def acquire_case(confs, addrs, expect, ci, ei, pol_index, src, dst, sport, dport
         est = [s for s in a.controller.ike_sas if s.state == State.ESTABLISHED and s.peer_addr == c['peer'] and s.my_addr == c['my']]
         if not est:
             return [('precondition', 'could not establish the first IKE_SA with the peer')]
+        if half_open:
+            # the peer (or somebody using its address) then starts an IKE_SA_INIT of its own and never finishes it
+            mine = [d for d in w.sent_log if d.sender == 'A' and d.data[18] == 34 and not d.data[19] & 0x20]
+            req = bytearray(mine[-1].data)
+            req[0:8] = b'\x5a' * 8
+            w.step(('inject', 'A', bytes(req), str(c['peer']), str(c['my'])))
+            w.net[:] = []
+            if not [s for s in a.controller.ike_sas if not s.is_initiator and int(s.state) < int(State.ESTABLISHED)]:
+                return [('precondition', 'could not create the half-open responder IKE_SA')]
         n_before = len(a.controller.ike_sas)
     if pre == 'sibling-established':
         other = next(i for i, x in enumerate(expect) if x is not c and x['peer'] == c['peer'])
@@ -403,6 +417,22 @@ def restart_cases():
                 if len(ep.kernel.spd) != 6:
                     probs.append(('spd-size', 'SPD holds %d policies after restart, configuration has 6' % len(ep.kernel.spd)))
             out.append(('restart:%s:step%d' % (victim, k), [('restart:' + s, m + ' [restart of %s after step %d, leftovers %r]' % (victim, k, before)) for s, m in probs]))
+    def faulty_restart(w, k):
+        """a kernel error at one of the first requests of start-up: the daemon either refuses to start (the constructor
+        raises) or comes up with exactly its policies and an empty SAD"""
+        for j in (0, 1):
+            w2 = w.fork()
+            before = (len(w2.endpoints['A'].kernel.sad), len(w2.endpoints['A'].kernel.spd))
+            w2.endpoints['A'].kernel.fail_next(j, K.ENOMEM)
+            try:
+                w2.step(('restart', 'A'))
+            except Exception:   # noqa - refusing to start is fine
+                out.append(('restart-fault:A:step%d:req%d' % (k, j), []))
+                continue
+            probs = spd_problems(w2.endpoints['A'].kernel, expect)
+            out.append(('restart-fault:A:step%d:req%d' % (k, j),
+                        [('restart-fault:' + s2, m + ' [start-up with kernel error at request %d after step %d, leftovers %r]' % (j, k, before))
+                         for s2, m in probs]))
     crash_and_restart(w, 0)
     for item in events:
         if item == 'drain':
@@ -417,6 +447,7 @@ def restart_cases():
                 w.step(item)
             k += 1
             crash_and_restart(w, k)
+    faulty_restart(w, k)
     return out
 
 
